@@ -72,6 +72,9 @@ pub(crate) fn symbol_exact<'a>(t: &'a str) -> impl FnMut(Span<'a>) -> IResult<Sp
 #[cfg(not(feature = "trace"))]
 pub(crate) fn keyword<'a>(t: &'a str) -> impl FnMut(Span<'a>) -> IResult<Span<'a>, Keyword> {
     move |s: Span<'a>| {
+        if !is_reserved_in_force(t) {
+            return Err(Err::Error(make_error(s, ErrorKind::Fix)));
+        }
         let (s, x) = map(
             ws(alt((
                 all_consuming(map(tag(t), into_locate)),
@@ -88,6 +91,9 @@ pub(crate) fn keyword<'a>(t: &'a str) -> impl FnMut(Span<'a>) -> IResult<Span<'a
     move |s: Span<'a>| {
         let (depth, s) = nom_tracable::forward_trace(s, &format!("keyword(\"{}\")", t));
         let body = || {
+            if !is_reserved_in_force(t) {
+                return Err(Err::Error(make_error(s, ErrorKind::Fix)));
+            }
             let (s, x) = map(
                 ws(alt((
                     all_consuming(map(tag(t), into_locate)),
@@ -424,6 +430,23 @@ pub(crate) fn concat<'a>(a: Span<'a>, b: Span<'a>) -> Option<Span<'a>> {
     } else {
         None
     }
+}
+
+/// A word that became reserved only in a later standard than the one selected by
+/// `begin_keywords is an ordinary identifier there (IEEE 1800-2017 22.14), so it must
+/// not be taken for a keyword either.
+pub(crate) fn is_reserved_in_force(t: &str) -> bool {
+    let keywords = match current_version() {
+        Some(Version::Ieee1364_1995) => KEYWORDS_1364_1995,
+        Some(Version::Ieee1364_2001) => KEYWORDS_1364_2001,
+        Some(Version::Ieee1364_2001Noconfig) => KEYWORDS_1364_2001_NOCONFIG,
+        Some(Version::Ieee1364_2005) => KEYWORDS_1364_2005,
+        Some(Version::Ieee1800_2005) => KEYWORDS_1800_2005,
+        Some(Version::Ieee1800_2009) => KEYWORDS_1800_2009,
+        Some(Version::Ieee1800_2012) => KEYWORDS_1800_2012,
+        _ => return true,
+    };
+    !KEYWORDS_1800_2017.contains(&t) || keywords.contains(&t)
 }
 
 pub(crate) fn is_keyword(s: &Span) -> bool {
